@@ -2,6 +2,7 @@
 # run every check at the given tier (default quick) and print one line per property
 TIER=${1:-quick}
 cd "$(dirname "$0")/.."
+mkdir -p .work
 for p in C01 C02 C03 C04 C05 C06 C07 C08 C09 C10 C11 C12 C13 C14 C15 C16 C17 C18 C19 C20; do
   ./check $p --tier $TIER > .work/runall-$p.log 2>&1
   rc=$?
